@@ -335,8 +335,9 @@ func runC19(c *Ctx) {
 	}
 
 	// extended requests by name against both servers, followed by a normal request
-	for _, reqServer := range []bool{false, true} {
-		rs, err := newRawSession(pairOpt{reqServer: reqServer, handlers: nullHandlerSet()})
+	for cfg, reqServer := range []bool{false, true, false} {
+		readOnly := cfg == 2 // third configuration: the os-backed server with ReadOnly()
+		rs, err := newRawSession(pairOpt{reqServer: reqServer, handlers: nullHandlerSet(), readOnly: readOnly})
 		if err != nil {
 			c.Diag("raw session: %v", err)
 			continue
@@ -347,7 +348,7 @@ func runC19(c *Ctx) {
 				payload = (&rb{}).str("/").b
 			}
 			resp, err := rs.do(rawExtended(uint32(500+i), name, payload))
-			n := c.Case("extreq", kvh("name", []byte(name)), kvb("req", reqServer))
+			n := c.Case("extreq", kvh("name", []byte(name)), kvb("req", reqServer), kvb("readonly", readOnly))
 			code, isStatus := uint32(0), false
 			if err == nil {
 				code, isStatus = resp.statusCode()
@@ -355,12 +356,15 @@ func runC19(c *Ctx) {
 			unsupported := isStatus && code == 8
 			next, nerr := rs.do(rawPathOp(fxpRealpath, 900, "/"))
 			cont := nerr == nil && next != nil && next.ID == 900
-			if !reqServer {
+			if !reqServer && !readOnly {
 				c.Obs(n, kvb("unsupported", unsupported), kvb("cont", cont))
 			}
 			ok, why := true, ""
 			if err != nil || !cont {
 				ok, why = false, fmt.Sprintf("session ended after extended request %q", name)
+			} else if i >= 3 && !unsupported {
+				// a name the server does not serve is answered "operation unsupported" whatever the server's configuration
+				ok, why = false, fmt.Sprintf("unknown-extension-not-unsupported: extended request %q answered status %d (is status: %v) instead of 8 (req=%v readonly=%v)", name, code, isStatus, reqServer, readOnly)
 			}
 			c.Oracle(n, ok, why)
 			if i >= 3 {
